@@ -6,5 +6,6 @@ CONSTANTS
   GenPrint = FALSE
 INVARIANT Bounded
 INVARIANT NoWriteAfterCrash
+INVARIANT BaseTyped
 INVARIANT GenCase
 CHECK_DEADLOCK FALSE
